@@ -18,6 +18,48 @@ class AnalysisError(Exception):
     unrecognised idiom, instance floor not met."""
 
 
+class _Desugar(ast.NodeTransformer):
+    """semantics-preserving normalisation applied before any analysis, so that rules phrased over statements and branch edges see through
+    expression-level idioms:  `t = a if c else b`  ->  `if c: t = a  else: t = b`  (same for `return`); only inside function bodies."""
+
+    def __init__(self):
+        self.depth = 0
+
+    def _func(self, node):
+        self.depth += 1
+        self.generic_visit(node)
+        self.depth -= 1
+        return node
+    visit_FunctionDef = _func
+    visit_AsyncFunctionDef = _func
+
+    def visit_Lambda(self, node):
+        return node
+
+    def _split(self, node, value, make):
+        if self.depth == 0 or not isinstance(value, ast.IfExp):
+            return node
+        body = make(value.body)
+        orelse = make(value.orelse)
+        new = ast.If(test=value.test, body=[body], orelse=[orelse])
+        for x in (new, body, orelse):
+            ast.copy_location(x, node)
+        new._desugared = True
+        # nested conditional expressions
+        new.body = [self.visit(body)] if not isinstance(self.visit(body), list) else self.visit(body)
+        new.orelse = [self.visit(orelse)] if not isinstance(self.visit(orelse), list) else self.visit(orelse)
+        return new
+
+    def visit_Assign(self, node):
+        if len(node.targets) == 1 and isinstance(node.targets[0], (ast.Name, ast.Attribute, ast.Subscript)):
+            import copy
+            return self._split(node, node.value, lambda v: ast.Assign(targets=[copy.deepcopy(node.targets[0])], value=v, type_comment=None))
+        return node
+
+    def visit_Return(self, node):
+        return self._split(node, node.value, lambda v: ast.Return(value=v))
+
+
 class Module:
     def __init__(self, name, relpath, src, reuse=None):
         self.name = name
@@ -33,7 +75,7 @@ class Module:
             self.assigns = {}
             return
         self.lines = src.splitlines()
-        self.tree = ast.parse(src, filename=relpath)
+        self.tree = ast.fix_missing_locations(_Desugar().visit(ast.parse(src, filename=relpath)))
         self.imports = {}      # local name -> ('mod', dotted) | ('sym', dotted_module, symbol)
         self.funcs = {}        # top-level name -> Func
         self.classes = {}      # top-level name -> ClassInfo
